@@ -69,7 +69,7 @@ def cClass (c : IClass) : String :=
     ++ String.join (c.ctors.map fun k => "  K " ++ k.name ++ " | " ++ k.toCpp ++ " | (" ++ cArgs k.args ++ ")\n")
     ++ String.join (c.methods.map (cMethod "M"))
     ++ String.join (c.statics.map (cMethod "S"))
-    ++ String.join (c.props.map fun p => "  P " ++ p.name ++ " | " ++ tyToCpp p.ctype ++ "\n")
+    ++ String.join (c.props.map fun p => "  P " ++ p.name ++ " | " ++ tyToCpp p.ctype ++ (match p.default with | some d => " = " ++ d | none => "") ++ "\n")
     ++ String.join (c.ops.map fun o => "  O " ++ o.sym ++ " | " ++ retToCpp o.ret ++ " | (" ++ cArgs o.args ++ ")\n")
     ++ String.join (c.enums.map fun e => "  E " ++ e.name ++ "\n")
     ++ String.join (c.dunders.map fun d => "  U " ++ d.1 ++ " | (" ++ cArgs d.2 ++ ")\n")
